@@ -1017,6 +1017,9 @@ impl Sut for GList<u64> {
                 match r {
                     Some(op) => {
                         t.call("glist.insert", &[sx(self), ix.to_string(), x.to_string(), sx(&op)]);
+                        let mut s2 = self.clone();
+                        s2.apply(op.clone());
+                        t.line(&format!("(idx insert {} {} {} {})", gread(self), ix, x, gread(&s2)));
                         Some(op)
                     }
                     None => {
@@ -1026,15 +1029,27 @@ impl Sut for GList<u64> {
                 }
             }
             2 => {
-                let id = if len == 0 { None } else { self.get(a.below(len as u64) as usize) };
+                let k = if len == 0 { 0 } else { a.below(len as u64) as usize };
+                let id = if len == 0 { None } else { self.get(k) };
                 let op = self.insert_after(id, x);
                 t.call("glist.insert_after", &[sx(self), sx(&id), x.to_string(), sx(&op)]);
+                if id.is_some() {
+                    let mut s2 = self.clone();
+                    s2.apply(op.clone());
+                    t.line(&format!("(idx insert {} {} {} {})", gread(self), k + 1, x, gread(&s2)));
+                }
                 Some(op)
             }
             _ => {
-                let id = if len == 0 { None } else { self.get(a.below(len as u64) as usize) };
+                let k = if len == 0 { 0 } else { a.below(len as u64) as usize };
+                let id = if len == 0 { None } else { self.get(k) };
                 let op = self.insert_before(id, x);
                 t.call("glist.insert_before", &[sx(self), sx(&id), x.to_string(), sx(&op)]);
+                if id.is_some() {
+                    let mut s2 = self.clone();
+                    s2.apply(op.clone());
+                    t.line(&format!("(idx insert {} {} {} {})", gread(self), k, x, gread(&s2)));
+                }
                 Some(op)
             }
         }
@@ -1146,17 +1161,30 @@ impl Sut for List<u64, A> {
                 let ix = a.below(len as u64 + 2) as usize;
                 let op = self.insert_index(ix, x, actor);
                 t.call("list.insert_index", &[sx(self), ix.to_string(), x.to_string(), actor.to_string(), sx(&op)]);
+                let mut s2 = self.clone();
+                s2.apply(op.clone());
+                t.line(&format!("(idx insert {} {} {} {})", lread(self), ix, x, lread(&s2)));
                 Some(op)
             }
             3 => {
                 let op = self.append(x, actor);
                 t.call("list.append", &[sx(self), x.to_string(), actor.to_string(), sx(&op)]);
+                let mut s2 = self.clone();
+                s2.apply(op.clone());
+                t.line(&format!("(idx insert {} {} {} {})", lread(self), self.len(), x, lread(&s2)));
                 Some(op)
             }
             _ => {
                 let ix = a.below(len as u64 + 1) as usize;
                 let op = self.delete_index(ix, actor);
                 t.call("list.delete_index", &[sx(self), ix.to_string(), actor.to_string(), sx(&op)]);
+                if let Some(o) = &op {
+                    let mut s2 = self.clone();
+                    s2.apply(o.clone());
+                    t.line(&format!("(idx delete {} {} 0 {})", lread(self), ix, lread(&s2)));
+                } else {
+                    t.line(&format!("(idx delete_none {} {} 0 {})", lread(self), ix, lread(self)));
+                }
                 op
             }
         }
@@ -1347,4 +1375,15 @@ pub fn merkle_reads(s: &MR) -> String {
     let mut all: Vec<merkle_reg::Hash> = s.all_nodes().map(|n| n.hash()).collect();
     all.sort();
     format!("merkle heads={} nodes={} orphans={} dag={}", sx(&r.hashes()), s.num_nodes(), s.num_orphans(), sx(&all))
+}
+
+fn lread(s: &List<u64, A>) -> String {
+    let v: Vec<u64> = s.read::<Vec<&u64>>().into_iter().cloned().collect();
+    sx(&v)
+}
+fn gread(s: &GList<u64>) -> String {
+    match guard(|| s.read::<Vec<&u64>>().into_iter().cloned().collect::<Vec<u64>>()) {
+        Some(v) => sx(&v),
+        None => "panic".into(),
+    }
 }
